@@ -23,7 +23,9 @@ def run(ctx):
     _RC20.api_effects(ctx, "R09.j", which=("markers",))
     from . import r_lang as _RL
     _RL.table_rules(ctx, None, None, None, None, None, rule_m="R09.k")
-    return info("R09.k: reduction tables map letters / marks to letters / marks and Lang::new starts with empty tables (a query with a letter keeps a word). R09.j: highlight_with really hands the markers to the store on every call (the registry API is not exercised by the repository's tests). R09.a: abstract walk of every loop-iteration / exit path of the title builder: markers are emitted as left, exactly "
+    from . import r_word as _RW2
+    _RW2.no_shadowed_defaults(ctx, "R09.l")
+    return info("R09.l: no impl overrides a provided method of the crate's traits (Word::len / dist / is_function, LimitSort). R09.k: reduction tables map letters / marks to letters / marks and Lang::new starts with empty tables (a query with a letter keeps a word). R09.j: highlight_with really hands the markers to the store on every call (the registry API is not exercised by the repository's tests). R09.a: abstract walk of every loop-iteration / exit path of the title builder: markers are emitted as left, exactly "
                 "one source slice, right, every path ends closed; R09.b: spans are word.slice.0 + subslice.{0,1}, the match is "
                 "looked up by word offset, every WordMatch is built with subslice.0 = 0; R09.c: empty query passes, no match => "
                 "no hit; R09.e: new_pair only with slice <= len(word); R09.f: (left, right) travel in order from highlight_with "
